@@ -6,6 +6,7 @@
 //!        -> `ok n=<buffers> iops=<issued> <len>:<hash>;…` | `panic` | `err` | `hang`
 //!   q …                                                IoQueue probe (see `exec_q`)
 //!   conc cap=<c> buf=<b> bs=<block> max=<m> mode=<join|seq|drop> | <prio>:<ranges> | …   black-box: several requests in flight
+//!   scen cap=<c> buf=<b> bs=<block> max=<m> <step> <step> …   black-box scripted scenario (see harness/src/c30_scen.rs)
 //! <ranges> = `s-e,s-e,…` or `-` (no range).  The file is FILE_LEN bytes, byte i = (i*i + 7*i + 3) % 251.
 
 use std::collections::HashMap;
@@ -26,6 +27,8 @@ use object_store::path::Path;
 
 #[path = "../c30_queue.rs"]
 mod c30_queue;
+#[path = "../c30_scen.rs"]
+mod c30_scen;
 
 const FILE_LEN: u64 = 4096;
 
@@ -342,7 +345,7 @@ impl Prop for C30 {
     }
     fn budget(&self, tier: Tier) -> usize {
         match tier {
-            Tier::Quick => 30_000,
+            Tier::Quick => 20_000,
             Tier::Thorough => 600_000,
             Tier::Search => 150_000,
         }
@@ -354,8 +357,11 @@ impl Prop for C30 {
          within-block and far-apart successors, lengths around and above the split threshold, and empty ranges sprinkled at arbitrary \
          offsets; every second such case uses a 12-byte universe (near-exhaustive small scope); <=12% of the lines are a labelled malformed \
          stream (non-empty ranges not ordered by start). (2) queue cases: 20-60 events on the IoQueue probe (push/next/iop_done/consumed/close) \
-         with capacities 1-3 and byte budgets 0-64, priorities with ties. (3) black-box cases: 2-5 concurrent requests with priorities through \
-         a ScanScheduler with io_parallelism 1-3 and a byte budget of 1-200, awaited in a random order. Non-trivial: a request with >=2 ranges \
+         with capacities 1-3 and byte budgets 0-64, priorities with ties. (3) black-box cases, alternating: `conc` = 2-5 concurrent requests with priorities through \
+         a ScanScheduler with io_parallelism 1-3 and a byte budget of 1-200 (join / priority-ordered await / scheduler dropped first); `scen` = scripted \
+         scenarios (submit / let the I/O loop run until it parks / await the most urgent outstanding request / drop the scheduler) over budgets 1-64: \
+         priority inversion behind a throttled request, a failing read (range past EOF) followed by less urgent traffic, dropping the scheduler and \
+         its last FileScheduler with a queued throttled request, and random scripts; every await and the drop run under a 5 s hang watchdog. Non-trivial: a request with >=2 ranges \
          where coalescing/splitting/empty ranges occur; a queue case where next was refused at least once and later succeeded; distinct = \
          distinct op-line text."
             .into()
@@ -364,7 +370,8 @@ impl Prop for C30 {
         let default_max = *lance_io::object_store::DEFAULT_MAX_IOP_SIZE;
         match idx % 4 {
             2 => c30_queue::gen_queue_case(r, &self.reader),
-            3 => c30_queue::gen_conc_case(r, default_max),
+            3 if (idx / 4) % 2 == 0 => c30_queue::gen_conc_case(r, default_max),
+            3 => c30_scen::gen_scen_case(r, default_max),
             k => {
                 let small = k == 1;
                 let n = 6 + r.usize(5);
@@ -399,8 +406,13 @@ impl Prop for C30 {
                 Some("req") | Some("ereq") => self.exec_req(&toks, n, &mut res),
                 Some("q") => c30_queue::exec_q(&mut q, &self.reader, &toks, n, &mut res),
                 Some("conc") => c30_queue::exec_conc(self, &toks, n, &mut res),
+                Some("scen") => c30_scen::exec_scen(self, &toks, n, &mut res),
                 _ => "bad-op".into(),
             };
+            if out.contains("hang") {
+                // after a hang the old runtime may hold blocked tasks / locked queues: abandon it
+                self.reset_runtime();
+            }
             res.outputs.push(out);
         }
         res
@@ -410,6 +422,13 @@ impl Prop for C30 {
 impl C30 {
     pub fn rt(&self) -> &tokio::runtime::Runtime {
         &self.rt
+    }
+    fn reset_runtime(&mut self) {
+        let rt = tokio::runtime::Builder::new_current_thread().enable_all().build().unwrap();
+        std::mem::forget(std::mem::replace(&mut self.rt, rt));
+        for (_, st) in self.stores.drain() {
+            std::mem::forget(st);
+        }
     }
     pub fn store_with(&self, bs: u64, io_parallelism: usize, buffer: u64) -> (FileScheduler, Arc<ScanScheduler>, u64) {
         let st = self.make_store(bs, io_parallelism, buffer);
